@@ -102,7 +102,7 @@ class G:
         if k == NUM:
             prods = [(3, self.p_arith), (1, self.p_neg), (2, self.p_if), (2, self.p_path), (2, self.p_index), (2, self.p_call),
                      (2, self.p_count), (1, self.p_sum), (1, self.p_strlen), (2, self.p_ctxpath), (1, self.p_leaf),
-                     (1, self.p_closure), (1, self.p_closure_loop), (1, self.p_shadow_builtin), (1, self.p_recursion), (2, self.p_hetero), (2, self.p_deep)]
+                     (1, self.p_closure), (1, self.p_closure_loop), (1, self.p_shadow_builtin), (1, self.p_recursion), (2, self.p_hetero), (2, self.p_deep), (2, self.p_ctxfresh)]
         elif k == STR:
             prods = [(3, self.p_concat), (2, self.p_if), (2, self.p_path), (2, self.p_index), (2, self.p_call), (2, self.p_ctxpath),
                      (1, self.p_leaf)]
@@ -342,6 +342,20 @@ class G:
         env2["k"] = k1
         e2 = self.expr(k, d - 1, env2)
         return ["path", ["ctx", [["k", e1], ["m", e2]]], "m"]
+
+    def p_ctxfresh(self, k, d, env):
+        """{q7: e1, m: q7 <op> e2}.m with an entry name q7 that nothing else binds: only the context literal itself makes q7 a known name for
+        the later entry (the second text writes the keys as string literals)"""
+        s = self.src
+        e1 = self.expr(NUM, d - 1, env)
+        e2 = self.expr(NUM, d - 1, env) if s.bool(0.4) else ["num", s.choice(NUM_LITS)]
+        op = s.choice(["+", "-", "*", "/"])
+        use = ["arith", op, ["name", "q7"], e2]
+        if s.bool(0.3):
+            use = ["if", ["cmp", ">", ["name", "q7"], ["num", "1"]], ["name", "q7"], use]
+        # (the entry that is read from outside is `m`, a name the scope knows: after the literal is closed its own entry names are unknown
+        # again, and an unknown name after the dot would swallow the words that follow it)
+        return ["path", ["ctx", [["q7", e1], ["m", use]]], "m"]
 
     def p_missing(self, k, d, env):
         return ["path", self.expr(("ctx", (("k", NUM),)), d - 1, env), "zz"]
